@@ -17,7 +17,8 @@ let kv tok key =
   else failwith ("expected " ^ key ^ "= got " ^ tok)
 
 let flags_of_variant v =
-  if v = "repaired" then repaired else if v = "head" then head else failwith "variant"
+  if v = "repaired" then repaired else if v = "head" then head
+  else if v = "head_nots" then head_nots else if v = "head_nottl" then head_nottl else failwith "variant"
 
 let rec take k l = if k = 0 then ([], l) else match l with x :: r -> let (a, b) = take (k-1) r in (x :: a, b) | [] -> failwith "short"
 let rec drop k l = if k = 0 then l else match l with _ :: r -> drop (k-1) r | [] -> []
@@ -155,31 +156,33 @@ let run_coa fl toks impl =
     let segs = split_on_str " ; " impl in
     if List.length pk <> npk || List.length segs <> npk then "NOIMPL"
     else
-      let seen = ref [] in
+      let seen = ref rcache0 in
       String.concat " ; " (List.map2 (fun p seg ->
           let get k = kv (List.find (fun t -> String.length t > String.length k && String.sub t 0 (String.length k + 1) = k ^ "=") p) k in
           match tokens seg with
-          | nowt :: dgt :: _ when String.length nowt > 4 && String.sub nowt 0 4 = "now=" && String.length dgt > 3 && String.sub dgt 0 3 = "dg=" ->
-            let now = int_of_string (kv nowt "now") in
+          | nowt :: dgt :: tbt :: tat :: rest_toks when String.length nowt > 4 && String.sub nowt 0 4 = "now=" && String.length dgt > 3 && String.sub dgt 0 3 = "dg="
+                                                        && String.length tbt > 3 && String.sub tbt 0 3 = "tb=" ->
             let dg = bytes_of_hex (kv dgt "dg") in
+            let tb = int_of_string (kv tbt "tb") and ta = int_of_string (kv tat "ta") in
             let src = ip_of_string (get "src") in
             let bus = match get "bus" with "ok" -> 0 | "nf" -> 1 | "e0" -> 2 | _ -> 3 in
-            let pre = nowt ^ " " ^ dgt ^ " " in
-            (* admissible choice: an authenticated request with an irregular Message-Authenticator may be dropped as
-               invalid by the read loop; the implementation's answer (drop, InvalidAuth counted for that client) decides *)
-            let lenient = coa_step md5f fl cfg (z_of_int now) src (n_of_int bus) dg in
-            let rej = reached_worker lenient && ma_irregular (truncate dg) &&
-                      (match lenient, tokens seg with
-                       | (OReply (cl, _, _, _) | ODropInvalid (cl, _) | OSilent cl), _ :: _ :: "drop" :: st :: _ ->
-                         st = Printf.sprintf "st=c%d.invalid1" (int_of_nat cl)
-                       | _ -> false) in
-            (* second admissible choice: the attribute order of the reply; the model takes the reply the implementation
-               sent and accepts it only if it is its own reply up to order and verifies (reply_equiv) *)
+            let pre = nowt ^ " " ^ dgt ^ " " ^ tbt ^ " " ^ tat ^ " " in
             let orep = (try Some (bytes_of_hex (kv (List.find (fun t -> String.length t > 6 && String.sub t 0 6 = "reply=") (tokens seg)) "reply"))
                         with Not_found -> None) in
-            let (o, seen') = coa_step_st md5f fl rej orep cfg (z_of_int now) src (n_of_int bus) dg !seen in
-            seen := seen';
-            (match o with
+            (* the code read the clock somewhere between tb and ta: evaluate at both instants (second = ms / 1000) *)
+            let eval tms =
+              let now = tms / 1000 in
+              (* admissible choice: an authenticated request with an irregular Message-Authenticator may be dropped as
+                 invalid by the read loop; the implementation's answer (drop, InvalidAuth counted for that client) decides *)
+              let lenient = coa_step md5f fl cfg (z_of_int now) src (n_of_int bus) dg in
+              let rej = reached_worker lenient && ma_irregular (truncate dg) &&
+                        (match lenient, rest_toks with
+                         | (OReply (cl, _, _, _) | ODropInvalid (cl, _) | OSilent cl), "drop" :: st :: _ ->
+                           st = Printf.sprintf "st=c%d.invalid1" (int_of_nat cl)
+                         | _ -> false) in
+              (* second admissible choice: the attribute order of the reply (reply_equiv) *)
+              let (o, cache') = coa_step_t md5f cache_max fl rej orep cfg (z_of_int now) (z_of_int tms) src (n_of_int bus) dg !seen in
+              let line = (match o with
              | ODropUnknown -> pre ^ "drop st=unknown1 ev=noev"
              | ODropInvalid (cl, st) -> pre ^ "drop st=" ^ show_stats (int_of_nat cl) st ^ " ev=noev"
              | OSilent _ -> pre ^ "silent st=none ev=noev"
@@ -194,7 +197,11 @@ let run_coa fl toks impl =
                  | None -> "noev"
                  | Some (EvMutation (t, d)) -> "mut:" ^ show_target t ^ ":" ^ show_delta d
                  | Some (EvTerminate t) -> "term:" ^ show_target t ^ ":radius-disconnect" in
-               pre ^ "reply st=" ^ show_stats cli st ^ " reply=" ^ hex_of_bytes reply ^ " ra=" ^ ra ^ " ma=" ^ ma ^ " ev=" ^ evs)
+               pre ^ "reply st=" ^ show_stats cli st ^ " reply=" ^ hex_of_bytes reply ^ " ra=" ^ ra ^ " ma=" ^ ma ^ " ev=" ^ evs) in
+              (line, cache') in
+            let (l1, c1) = eval tb in
+            let (l2, c2) = if ta = tb then (l1, c1) else eval ta in
+            if l1 = l2 || l1 = seg || l2 <> seg then (seen := c1; l1) else (seen := c2; l2)
           | _ -> "NOIMPL") pk segs)
   | _ -> "badcase"
 
